@@ -40,7 +40,9 @@ CHECK = {
             "cluster-dag / remote / remote-without-allocations / meta pins, recursive and direct, 3 option variants; queue size 1-3, 1-3 pin workers; "
             "daemon read failures (F:1 / F:0: PinLsCid and PinLs answer an error — Status = cluster_error, StatusAll empty, RecoverAll must report it); a RecoverAll that "
             "overlaps later instructions (G = it reads the pinset now, Rs = the rest of it runs on that listing); "
-            "six generator profiles (mixed, queue pressure, churn on one cid, faulty daemon, recover rounds, noise) and a corpus of boundary schedules; "
+            "seven generator profiles (mixed, queue pressure, churn on one cid, faulty daemon, recover rounds, noise, requeue = instructions for a cid the daemon already pins "
+            "while every worker is busy, so the new operation waits in the channel and is untracked / re-tracked there) and a corpus of boundary schedules; three of four generated "
+            "schedules are closed by a tail that answers every parked call until nothing is parked (a quiescent point), a RecoverAll, and the same again; "
             "one case = one schedule with the observation (Status per cid, StatusAll, daemon pin table with modes, shared pinset, parked calls, returned "
             "errors) at the stable point after every action; non-trivial = the schedule contains an instruction; distinct by case line",
     "trusted_base": ["gated fake IPFS daemon behind an in-process gorpc IPFSConnector service (harness/c05): Pin/Unpin park until scripted, PinLsCid/PinLs answer "
@@ -67,10 +69,13 @@ META = {
             "(recoverAllR_heals), a failed listing recovers nothing and must be reported (recoverAll_lsErr; fixed in /repo aa42f84); for EVERY schedule of blocks of events every observation "
             "point satisfies the first clause as the driver evaluates it (model_trace_match_or_error); instructions in two steps interleaved with each other: harmless for Track/Untrack sends, "
             "but a Recover / RecoverAll acting on a status read before a concurrent Untrack re-pins a removed cid (proved witness + replay on the real tracker, known finding); Shutdown cancels every "
-            "operation and no completion writes afterwards. The model is tied to the "
+            "operation and no completion writes afterwards. Round 8: Untrack always leaves an Unpin operation in the table that is refused (ErrFullQueue, error status) or alive in the unpin channel / parked at the daemon, "
+            "whatever the table held — also a pin still waiting in the channel (untrack_unpin_on_its_way); the shortcut 'cancel the queued pin and forget it' is refuted with a witness (unqueue_shortcut_breaks: "
+            "quiescent, pinset empty, daemon pins the cid, recover finds nothing); the first sentence as a whole-history statement after ONE instruction from any reachable state "
+            "(untrack_converges, track_converges: any later events that leave that cid's pinset entry alone). The model is tied to the "
             "code by running thousands of scripted schedules on the real tracker against a gated fake daemon and comparing every stable-point observation with the "
             "model, and the Lean property clauses are evaluated on the implementation's own observations.",
     "note": "Trusted: Lean kernel, hand-written model/spec, the gated daemon and stable-point detection of the harness. The suspected defect 'a re-track with another mode "
             "is deduplicated' is real behaviour but ends in pin_error (Status asks the daemon for the recorded mode) and is repaired by recover: no finding.",
-    "technique": "regenerated source text of the anchored functions checked against the transcribed snapshot (rfl) + Lean 4 inductive invariant over an LTS + schedule-level differential correspondence against a gated daemon",
+    "technique": "regenerated source text of the anchored functions and the function inventory of the anchored files checked against the transcribed snapshot (rfl) + Lean 4 inductive invariant over an LTS + schedule-level differential correspondence against a gated daemon",
 }
